@@ -85,7 +85,7 @@ Lemma load_inv : forall W o x st spec0 range asset in_dyn root attr count,
   PendInv x st -> PendInv x (load W o st spec0 range asset in_dyn root attr count).
 Proof.
   intros W o x st spec0 range asset in_dyn root attr count H. unfold load.
-  set (s := match lookup spec0 (st_redirects st) with Some r => r | None => spec0 end).
+  set (s := load_target st spec0).
   destruct (asset && negb (N.eqb attr 0) && negb (attr_allowed o attr)).
   { apply set_slot_nonpending_inv; [exact H | reflexivity]. }
   assert (Hproceed : PendInv x
@@ -98,6 +98,15 @@ Proof.
     - apply queue_load_inv. exact H.
     - eapply PendInv_ext; [| |apply (set_slot_nonpending_inv x st s (BMod (node_module s)) H eq_refl)]; reflexivity.
     - apply set_slot_nonpending_inv; [exact H | reflexivity]. }
+  assert (Hproceed' : PendInv x
+    (if has_key s (st_redirects st) then set_slot st s (BErr (BLoad s range 1))
+     else match class_of W s with
+          | SNode => (set_slot st s (BMod (node_module s))) <| st_has_node := true |>
+          | SBad => set_slot st s (BErr (BBadSpecifier s range))
+          | SUrl => queue_load st s range asset in_dyn root attr count
+          end)).
+  { destruct (has_key s (st_redirects st)); [apply set_slot_nonpending_inv; [exact H | reflexivity] | exact Hproceed]. }
+  clear Hproceed. rename Hproceed' into Hproceed.
   destruct (lookup s (st_slots st)) as [sl|]; [|exact Hproceed].
   destruct (match sl with BExternal true => negb asset | _ => false end); [exact Hproceed|].
   destruct (match sl with BPending true => negb asset | _ => false end); [|exact H].
